@@ -38,3 +38,21 @@ CASES = [
       "                    ado3[nn,:,:] += 1j*dt*rr - 1j*dt*rl"),
     t("upper guard jj >= 1", "                if jj > 0:\n   \n", "                if jj >= 1:\n   \n"),
 ]
+
+CASES += [
+    m("multi-indices reached along two paths are kept twice", "C16-E",
+      "                            if nlist not in new_level_prev:\n                                new_level_prev.append(nlist)",
+      "                            if True:\n                                new_level_prev.append(nlist)"),
+    m("upper link points two orders up", "C16-E",
+      "                indxp[kk] += 1\n", "                indxp[kk] += 2\n"),
+    m("lower link searched among all indices but the first", "C16-E",
+      "                for ll in range(nn):\n                    if numpy.array_equal(self.hinds[ll,:], indxm):",
+      "                for ll in range(1, nn):\n                    if numpy.array_equal(self.hinds[ll,:], indxm):"),
+    m("level offsets not accumulated", "C16-E",
+      "            start = start+lngth", "            start = lngth"),
+    m("decay factor ignores the order", "C16-E",
+      "                self.Gamma[nn] += self.hinds[nn,kk]*self.gamma[kk]", "                self.Gamma[nn] += self.gamma[kk]"),
+    t("index generation with a set of seen tuples", 
+      "                            if nlist not in new_level_prev:\n                                new_level_prev.append(nlist)",
+      "                            if new_level_prev.count(nlist) == 0:\n                                new_level_prev.append(nlist)"),
+]
